@@ -1,3 +1,4 @@
+import CharsetProof.Lemmas.Coh
 import CharsetProof.Lemmas.F32
 import CharsetProof.Lemmas.Loop
 import CharsetProof.Lemmas.Merge
@@ -8,7 +9,12 @@ import CharsetProof.Props.C10
 import CharsetProof.Props.C10b
 import CharsetProof.Props.C10c
 import CharsetProof.Props.C10d
+import CharsetProof.Props.C10e
 open Charset
+#print axioms C10_tied_language_full
+#print axioms worldFull_coh_respects_include
+#print axioms Coh.coherenceRatio_respects_include
+#print axioms coherenceRatioModel_langs
 #print axioms C10_unicode_ranges
 #print axioms C10_unicode_ranges_union
 #print axioms unicodeRangesOf_spec
